@@ -56,6 +56,11 @@ pub fn run(c: &ProducersCase, cx: &Ctx) -> CaseResult {
     let mut own_uids: Vec<Vec<u64>> = vec![vec![]; nprod];
     let ranges: Mutex<Vec<(u64, u64, usize)>> = Mutex::new(vec![]);
     let progress = Arc::new(AtomicU64::new(0));
+    // known finding: run([.., Add(X), .., Delete(X)]) racing with another producer can leave X alive
+    const KEY: &str = "producers:batch_add_then_delete_same_doc_survives";
+    let skip_same_batch = cx.known_open(KEY);
+    let excluded = AtomicU64::new(0);
+    let same_batch: Mutex<Vec<u64>> = Mutex::new(vec![]);
     let rounds = c.rounds.max(1) as usize;
     let mut total_ops = 0usize;
     for round in 0..rounds {
@@ -70,6 +75,8 @@ pub fn run(c: &ProducersCase, cx: &Ctx) -> CaseResult {
                 let mut model = models[p].clone();
                 let mut uids = own_uids[p].clone();
                 let ranges = &ranges;
+                let excluded = &excluded;
+                let same_batch = &same_batch;
                 let progress = progress.clone();
                 handles.push(
                     std::thread::Builder::new()
@@ -113,6 +120,7 @@ pub fn run(c: &ProducersCase, cx: &Ctx) -> CaseResult {
                                     }
                                     POp::Batch(items) => {
                                         let mut uops = vec![];
+                                        let first_staged = uids.len();
                                         for (is_add, a) in items {
                                             if *is_add {
                                                 let uid = p as u64 * 1_000_000 + uids.len() as u64;
@@ -121,7 +129,16 @@ pub fn run(c: &ProducersCase, cx: &Ctx) -> CaseResult {
                                                 model.insert(uid, rec);
                                                 uids.push(uid);
                                             } else if !uids.is_empty() {
-                                                let u = uids[idx(a.num.unsigned_abs().wrapping_mul(997), uids.len())];
+                                                let k = idx((a.num.unsigned_abs() as u16).wrapping_mul(3277), uids.len());
+                                                if k >= first_staged {
+                                                    // the batch deletes a document it added itself
+                                                    if skip_same_batch {
+                                                        excluded.fetch_add(1, Ordering::SeqCst);
+                                                        continue;
+                                                    }
+                                                    same_batch.lock().unwrap().push(uids[k]);
+                                                }
+                                                let u = uids[k];
                                                 uops.push(UserOperation::Delete(Term::from_field_u64(env.f.uid, u)));
                                                 model.remove(&u);
                                             }
@@ -168,7 +185,17 @@ pub fn run(c: &ProducersCase, cx: &Ctx) -> CaseResult {
         env.dirty = true;
         let max_o = ranges.lock().unwrap().iter().map(|r| r.1).max();
         env.last_opstamp = max_o;
-        env.apply(&Op::Commit, cx)?;
+        if let Err(f) = env.apply(&Op::Commit, cx) {
+            if f.sig == "content_extra_docs" {
+                // are all surviving documents ones that were added and deleted by the same batch?
+                let sb = same_batch.lock().unwrap().clone();
+                let extra: Vec<u64> = f.detail.split("extra uids [").nth(1).and_then(|r| r.split(']').next()).map(|l| l.split(", ").filter_map(|x| x.trim().parse().ok()).collect()).unwrap_or_default();
+                if !extra.is_empty() && extra.iter().all(|u| sb.contains(u)) {
+                    return Err(Failure::new(KEY, f.detail));
+                }
+            }
+            return Err(f);
+        }
         if round + 1 < rounds && round % 2 == 1 {
             env.apply(&Op::Merge(0xffff), cx)?;
         }
@@ -178,6 +205,7 @@ pub fn run(c: &ProducersCase, cx: &Ctx) -> CaseResult {
     cx.label_if(segs >= 2, "segments>=2");
     cx.label_if(c.cfg.flush_every > 0, "flush_every");
     cx.count("producer_ops", total_ops as u64);
+    cx.excluded(KEY, excluded.load(Ordering::SeqCst));
     if total_ops >= 10 && nprod >= 2 {
         cx.nontrivial(fp(c));
     }
